@@ -73,6 +73,7 @@ def recipes(iface, tmpfile):
         "echo": echo,
         "big64k": lambda req: mod.PlainTextResponse(b"x" * 65536),
         "big64k+": lambda req: mod.PlainTextResponse(b"y" * 65537),
+        "big1m+": lambda req: mod.PlainTextResponse(bytes(range(256)) * 4096 + b"!"),
         "bigstream": lambda req: mod.StreamResponse(stream([b"a" * 40000, b"b" * 40000, b"c" * 51072])),
         "mixedstream": lambda req: mod.StreamResponse(stream([b"s" * 40, b"L" * 65536, b"t" * 3, b"M" * 70000, b"u"])),
     }
